@@ -194,6 +194,21 @@ func spNudged(e enum.Embed, level int) *BoolSpace {
 		}}
 }
 
+// spPairStrided: B2 with every sS-th subject and every sC-th clip triangle (strides coprime to 9).
+func spPairStrided(e enum.Embed, sS, sC uint64, level int) *BoolSpace {
+	n := enum.PathCount(3, 3)
+	nS, nC := (n+sS-1)/sS, (n+sC-1)/sC
+	return &BoolSpace{Name: fmt.Sprintf("B2/every %d-th of P(3,3) x every %d-th of P(3,3)/%s", sS, sC, e.Name), Level: level, Size: nS * nC, E: e,
+		Gen: func(idx uint64, g *genBuf) (Paths, Paths) {
+			g.reset()
+			g.p[0] = enum.UnrankPath(idx%nS*sS, 3, 3, e, g.p[0])
+			g.p[1] = enum.UnrankPath(idx/nS*sC, 3, 3, e, g.p[1])
+			g.s = append(g.s, g.p[0])
+			g.c = append(g.c, g.p[1])
+			return g.s, g.c
+		}}
+}
+
 // spNoSubject: B0 - no subject at all (nil, empty set, set holding one empty path) and a clip path of P(3,n):
 // "inside subject" is false everywhere, so Union and Xor return the clip region.
 func spNoSubject(e enum.Embed, n, level int) *BoolSpace {
@@ -259,7 +274,8 @@ func boolSpaces(tier string) []*BoolSpace {
 			out = append(out, spPair("B2", e, 3, 3, 3, 4), spTwo(e, 3, 3, 4))
 		}
 		out = append(out, spSingle(enum.Eax, 3, 6, 4), spPair("B2", enum.Ean, 3, 3, 3, 4), spThree(enum.Eax, 10, 5), spThree(enum.Ean, 13, 5), spThree(enum.Esh, 13, 5), spTwoLevel(7, 3, 5),
-			spThreeRoles(enum.Eax, 13, 1, 5), spThreeRoles(enum.Eax, 13, 3, 5), spThreeRoles(enum.Ean, 17, 1, 5), spThreeRoles(enum.Ean, 17, 3, 5))
+			spThreeRoles(enum.Eax, 13, 1, 5), spThreeRoles(enum.Eax, 13, 3, 5), spThreeRoles(enum.Ean, 17, 1, 5), spThreeRoles(enum.Ean, 17, 3, 5),
+			spSingle(enum.Eflat, 3, 3, 1), spSingle(enum.Eflat, 3, 4, 2), spPairStrided(enum.Eflat, 7, 7, 4), spThree(enum.Eflat, 37, 5))
 		return out
 	}
 	all := []enum.Embed{enum.Eax, enum.Esh, enum.Ean, enum.Ebig}
@@ -278,7 +294,8 @@ func boolSpaces(tier string) []*BoolSpace {
 	}
 	out = append(out, spThree(enum.Eax, 5, 6), spThree(enum.Esh, 7, 6), spThree(enum.Ean, 7, 6),
 		spThreeRoles(enum.Eax, 7, 1, 6), spThreeRoles(enum.Eax, 7, 3, 6), spThreeRoles(enum.Ean, 10, 1, 6), spThreeRoles(enum.Ean, 10, 3, 6), spThreeRoles(enum.Esh, 10, 1, 6), spThreeRoles(enum.Esh, 10, 3, 6))
-	out = append(out, spShapes(enum.Eax, 5, 6), spTwoLevel(3, 1, 6))
+	out = append(out, spShapes(enum.Eax, 5, 6), spTwoLevel(3, 1, 6),
+		spSingle(enum.Eflat, 3, 3, 1), spSingle(enum.Eflat, 3, 4, 2), spSingle(enum.Eflat, 3, 5, 3), spPairStrided(enum.Eflat, 2, 2, 4), spThree(enum.Eflat, 13, 5))
 	return out
 }
 
